@@ -5,7 +5,7 @@
    `run eager init_sess ops` / `rrun eager rsinit ops` = what model / reference return at every step and show
    AFTER every step: per stack the Head/Next walk, the iterator output and Len; per handle Ok, In(stack 0), In(stack 1),
    Value; returned items as indices into the table of every item ever returned. *)
-From FunV Require Import Base.Tac Model.StackHeap Proofs.StackHeap_ref Proofs.StackHeap_wf Proofs.StackHeap_sim Proofs.StackHeap_thms.
+From FunV Require Import Base.Tac Model.StackHeap Proofs.StackHeap_ref Proofs.StackHeap_wf Proofs.StackHeap_sim Proofs.StackHeap_thms Proofs.StackHeap_vals.
 Local Open Scope Z_scope.
 
 (* For every operation list from two zero-value stacks — any handles (top, middle, bottom, sentinel, detached, nil,
@@ -99,3 +99,70 @@ Theorem C16_stack_append_rejected_iff :
                     r' = r_cons r s n' /\ y = Some n').
 Proof. exact r_append_spec_proof. Qed.
 Print Assumptions C16_stack_append_rejected_iff.
+
+(* ------------------------------------------------------------------------------------------------------------
+   The reference read on plain sequences of VALUES (`r_values r s : list Z`, top first) — "the same operations on a
+   plain slice".  `R w r` (some well-formed heap realises r) holds of every state of a guarded run by
+   stack_refines_seq_init / stack_refines_seq / stack_observe_refines. *)
+
+(* Push = cons; nothing else moves *)
+Theorem C16_stack_push_is_cons :
+  forall w r s v, R w r -> (s < sfresh w)%nat ->
+    r_values (r_push r s v) s = v :: r_values r s /\ (forall t, t <> s -> r_values (r_push r s v) t = r_values r t).
+Proof. exact r_push_values. Qed.
+Print Assumptions C16_stack_push_is_cons.
+
+(* Pop = head/tail: a non-empty stack returns the item carrying the first value and keeps the rest; an empty one
+   returns its (not Ok) sentinel and stays empty; nothing else moves *)
+Theorem C16_stack_pop_is_tail :
+  forall w r s, R w r ->
+    match rseq r s with
+    | [] => r_values (fst (r_pop r s)) s = [] /\ (forall x, snd (r_pop r s) = Some x -> rok (fst (r_pop r s)) x = false)
+    | x :: _ => snd (r_pop r s) = Some x /\ r_values r s = rval r x :: r_values (fst (r_pop r s)) s
+    end /\ (forall t, t <> s -> r_values (fst (r_pop r s)) t = r_values r t).
+Proof. exact r_pop_values. Qed.
+Print Assumptions C16_stack_pop_is_tail.
+
+(* Append(vs...) pushes each value in turn *)
+Theorem C16_stack_appendv_values :
+  forall vs w r s, R w r -> (s < sfresh w)%nat ->
+    r_values (r_appendv r s vs) s = rev vs ++ r_values r s /\ (forall t, t <> s -> r_values (r_appendv r s vs) t = r_values r t).
+Proof. exact r_appendv_values. Qed.
+Print Assumptions C16_stack_appendv_values.
+
+(* PopIterator yields the sequence and leaves the stack empty; other stacks keep their items *)
+Theorem C16_stack_popiter_values :
+  forall w r s, R w r -> (s < sfresh w)%nat ->
+    snd (r_popiter r s) = r_values r s /\ rseq (fst (r_popiter r s)) s = [] /\
+    (forall t, t <> s -> rseq (fst (r_popiter r s)) t = rseq r t).
+Proof. exact r_popiter_values. Qed.
+Print Assumptions C16_stack_popiter_values.
+
+(* UnmarshalJSON(vs) puts vs, in order, in front of what the stack held; other stacks keep their values *)
+Theorem C16_stack_unmarshal_values :
+  forall w r s vs, R w r -> (s < sfresh w)%nat ->
+    exists r', r_unmarshal r s vs = Ok r' /\ r_values r' s = vs ++ r_values r s /\
+      (forall u, (u < rsf r)%nat -> u <> s -> r_values r' u = r_values r u).
+Proof. exact r_unmarshal_values. Qed.
+Print Assumptions C16_stack_unmarshal_values.
+
+(* MarshalJSON encodes the sequence, and decoding that into an empty stack reproduces it (JSON round trip) *)
+Theorem C16_stack_marshal_values : forall w r s, R w r -> snd (r_walk r s) = r_values r s.
+Proof. exact r_walk_values. Qed.
+Print Assumptions C16_stack_marshal_values.
+
+Theorem C16_stack_json_roundtrip :
+  forall w r s t, R w r -> (t < sfresh w)%nat -> rseq r t = [] ->
+    exists r', r_unmarshal r t (snd (r_walk r s)) = Ok r' /\ r_values r' t = snd (r_walk r s).
+Proof. exact r_json_roundtrip. Qed.
+Print Assumptions C16_stack_json_roundtrip.
+
+(* Item.Attach(t) through an item (or the sentinel) of another stack s: t's values arrive reversed on top of s, t is
+   left empty, every other stack keeps its values *)
+Theorem C16_stack_attach_values :
+  forall w r i s t, R w r -> (t < sfresh w)%nat -> r_owner r i = Some s -> s <> t -> rseq r t <> [] ->
+    exists r', r_attach r (Some i) (Some t) = Ok (r', true) /\
+      r_values r' s = rev (r_values r t) ++ r_values r s /\ r_values r' t = [] /\
+      (forall u, u <> s -> u <> t -> r_values r' u = r_values r u).
+Proof. exact r_attach_values. Qed.
+Print Assumptions C16_stack_attach_values.
